@@ -14,19 +14,20 @@ func init() { checkers["C12"] = checkC12 }
 var transientEnd = map[int64]bool{2: true, 3: true, 4: true, 5: true} // state-changed, disconnected, too-slow, backfill-failed
 
 type c12vb struct {
-	sid       string
-	open      bool
-	final     bool // ended for good
-	finalN    int
-	awaiting  bool // transient end seen, re-open expected
-	awaitN    int
-	awaitT    int64
-	posAtEnd  uint64
-	pos       uint64
-	end       uint64 // requested end (finite mode)
-	emittedLE map[uint64]bool
-	delivered map[uint64]bool
-	fails     int
+	sid              string
+	open             bool
+	final            bool // ended for good
+	finalN           int
+	awaiting         bool // transient end seen, re-open expected
+	awaitN           int
+	awaitT           int64
+	posAtEnd         uint64
+	pos              uint64
+	end              uint64 // requested end (finite mode)
+	emittedLE        map[uint64]bool
+	emittedBeforeEnd map[uint64]bool // emitted on the current stream, not yet delivered
+	delivered        map[uint64]bool
+	fails            int
 }
 
 func checkC12(run *Run, res *Result) {
@@ -146,6 +147,7 @@ func checkC12(run *Run, res *Result) {
 			}
 			if e.S2 == "ok" {
 				v.sid, v.open, v.end = e.ID, true, e.Off.Latest
+				v.emittedBeforeEnd = nil
 				if !ready[e.M] {
 					v.pos = e.Off.Seq
 				}
@@ -164,6 +166,12 @@ func checkC12(run *Run, res *Result) {
 			if isDocKind(e.S) && !isInternalKey(e.Key) && e.Seq <= v.end {
 				v.emittedLE[e.Seq] = true
 			}
+			if isDocKind(e.S) {
+				if v.emittedBeforeEnd == nil {
+					v.emittedBeforeEnd = map[uint64]bool{}
+				}
+				v.emittedBeforeEnd[e.Seq] = true
+			}
 		case journal.KConn:
 			if e.S == "drop" && strings.Contains(e.ID, "d.n") {
 				// every stream of that DCP connection ends with 'socket closed'
@@ -177,7 +185,12 @@ func checkC12(run *Run, res *Result) {
 		case journal.KConsume:
 			v := get(k)
 			v.delivered[e.Seq] = true
-			if v.final {
+			pending := v.emittedBeforeEnd[e.Seq]
+			delete(v.emittedBeforeEnd, e.Seq)
+			if v.final && pending {
+				// emitted before the end in the same burst: the client processes its connection in order, the
+				// delivery merely shows up in the journal after the node's end event
+			} else if v.final {
 				res.violate("C12", "R2-delivery-after-final-end", e.N, fmt.Sprintf("vb=%d", e.Vb), "member %d vb %d: seqno %d delivered after the vBucket's stream had ended for good", e.M, e.Vb, e.Seq)
 			}
 		case journal.KTrack:
